@@ -9,7 +9,8 @@ KINDS = {
     "exec": dict(exe=1), "write": dict(wr=1), "selfwrite": dict(wr=1, pid=mc.SELF), "both": dict(exe=1, wr=1),
     # process id 0 is what the kernel reports for a process outside the daemon's pid namespace: an ordinary foreign id
     "pid0write": dict(wr=1, pid=0),
-    "none": dict(), "overflow": dict(ovf=1, fd=-1, pid=0),     # as the kernel sends it: no descriptor (FAN_NOFD), no process "badvers": dict(vers=0, exe=1), "shortread": dict(read=1, exe=1),
+    "none": dict(), "overflow": dict(ovf=1, fd=-1, pid=0),     # as the kernel sends it: no descriptor (FAN_NOFD), no process
+    "badvers": dict(vers=0, exe=1), "shortread": dict(read=1, exe=1),
     "failedread": dict(read=2, wr=1), "pollerr": dict(poll=2), "pollhup": dict(poll=3), "wakeup": dict(poll=1),
     "execfail": dict(exe=1, execok=0), "writefail": dict(wr=1, writeok=0), "timeoutfail": dict(wr=1, timeout="err"),
 }
@@ -101,6 +102,52 @@ def main(rep):
             found = found or f2
             validated += v2
             rep.cov["handler_wait_histories"] = len(wcases)
+        # "stops the daemon with an error instead of being skipped or misread" - also when memory is short: every
+        # allocation of main() fails in turn (implementation only) in runs that end at a fatal notification (overflow,
+        # unsupported format, short / failed read, poll failure, a handler error) followed by two ordinary ones: the
+        # run must still end there, with a failure status, nothing after it dispatched
+        nalloc = 0
+        if not found:
+            bases = []
+            for k in ("overflow", "badvers", "shortread", "failedread", "pollerr", "pollhup", "execfail", "writefail", "timeoutfail"):
+                slots = []
+                for i, kk in enumerate(("write", k, "write", "exec")):
+                    kw = dict(KINDS[kk])
+                    kw.setdefault("timeout", 3)
+                    kw.setdefault("fd", 1005 + i)
+                    slots.append(mc.slot(**kw))
+                bases.append((k, mc.main_case(slots=slots), slots))
+            counts, _, _ = vlib.correspond(exe_impl, None, "main", [("n%d" % i, b.replace("m_run", "m_allocs\nm_run")) for i, (_, b, _) in enumerate(bases)], sandbox=True)
+            acases = []
+            for i, (k, b, slots) in enumerate(bases):
+                na = next((int(l.split()[1]) for l in counts.get("n%d" % i) or [] if l.startswith("allocs ")), 0)
+                for j in range(min(na, 120)):
+                    acases.append(("af%d_%d" % (i, j), b.replace("m_run", "m_afail %d\nm_run" % j), (k, slots, j)))
+            nalloc = len(acases)
+            aimpl, _, aproblems = vlib.correspond(exe_impl, None, "main", [(c, t) for c, t, _ in acases], sandbox=True, shards=min(16, max(1, len(acases))))
+            for cid, script, (k, slots, j) in acases:
+                il = [l for l in (aimpl.get(cid) or []) if not l.startswith("allocs ")]
+                idx = next((i for i, l in enumerate(il) if l.startswith("load ")), None)
+                if idx is None:
+                    continue        # the failing allocation ended the start-up: C12's business
+                got = il[idx + 1:]
+                # up to the fatal notification the run is the ordinary one; after it nothing more may be handled
+                reads = [i for i, l in enumerate(got) if l == "read" or l.startswith("poll ")]
+                npolls = sum(1 for l in got if l.startswith("poll "))
+                exits = [l for l in got if l.startswith("exit ")]
+                bad = None
+                if npolls > 2:
+                    bad = "the loop went on to wait for (and handle) further notifications after the fatal one"
+                elif not exits or exits[-1].split()[1] == "0":
+                    bad = "the run did not end with a failure status (%s)" % (exits or "no exit")
+                if bad:
+                    rep.violation("loop-oom", {"case": cid, "script": script.split("\n"), "driver": "main", "implementation": il,
+                                               "what": "with allocation %d of main() failing, a run whose second notification is fatal (%s): %s; observed after the load: %s" % (j, k, bad, got[:14])})
+                    found = True
+                    break
+                validated += 1
+            problems += aproblems
+        rep.cov["allocation_failures_enumerated"] = nalloc
         # "its descriptor is closed afterwards": the loop closes the descriptor of every notification (checked above with
         # scripted handlers); the REAL handlers only borrow it - after executions of editors (ELF images, scripts, damaged
         # images), of other programs and after writes the descriptor is still open when the handler returns
